@@ -416,6 +416,8 @@ class Check:
         d = workdir(self.pid, "replay")
         n = len(self.violations)
         path = os.path.join(d, (replay_name or f"v{n}") + ".ndjson")
+        if callable(replay_lines):      # lazily built: only violations that are written out pay for it
+            replay_lines = replay_lines()
         with open(path, "w") as f:
             for line in (replay_lines or []):
                 f.write(line if line.endswith("\n") else line + "\n")
